@@ -1,6 +1,6 @@
 //! C18 harness: principal component analysis (`linfa_reduction::Pca`).
 //! One case = one integer record matrix `x` (n x p) plus integer probe rows `q`.  For every
-//! embedding size k in 1..=p and whitening off/on the real `Pca::params(k).whiten(w).fit(..)` is
+//! embedding size k in `ks` (default 1..=p) and whitening off/on the real `Pca::params(k).whiten(w).fit(..)` is
 //! called (the k = p, un-whitened fit first) and three events are recorded per fit:
 //!   fit  : result, mean, singular values (+ order keys), components, explained variance (+ratio)
 //!   proj : predict / transform of the training records and predict of the probe rows
@@ -79,11 +79,19 @@ fn run(case: &Value) -> Vec<Value> {
     let q = to_array2(&qs, p);
     let mut ev: Vec<Value> = vec![];
 
+    // embedding sizes to run (default: all of 1..=p); the complete un-whitened fit always comes first
+    let ks: Vec<usize> = match inp.get("ks") {
+        Some(v) => ivec(v).into_iter().map(|k| k as usize).collect(),
+        None => (1..=p).collect(),
+    };
+    // number of training rows whose projection / reconstruction is logged (default: all)
+    let zr = inp.get("zr").and_then(|v| v.as_i64()).map(|v| v as usize).unwrap_or(n).min(n);
+    let xz = x.slice(ndarray::s![..zr, ..]).to_owned();
     let mut order: Vec<(usize, bool)> = vec![(p, false)];
-    for k in 1..p {
+    for &k in ks.iter().filter(|&&k| k < p) {
         order.push((k, false));
     }
-    for k in 1..=p {
+    for &k in ks.iter() {
         order.push((k, true));
     }
     for (k, wh) in order {
@@ -132,8 +140,8 @@ fn run(case: &Value) -> Vec<Value> {
 
         // projections: predict on the array, transform on the dataset, predict on the probe rows
         let pr = guarded(|| {
-            let z: Array2<f64> = model.predict(&x);
-            let zt: Array2<f64> = model.transform(DatasetBase::from(x.clone())).records;
+            let z: Array2<f64> = model.predict(&x).slice(ndarray::s![..zr, ..]).to_owned();
+            let zt: Array2<f64> = model.transform(DatasetBase::from(xz.clone())).records;
             let zq: Array2<f64> = match form {
                 Form::View => model.predict(&q.view()),
                 _ => model.predict(&q),
